@@ -8,11 +8,12 @@ def make(tier):
     P = Plan('C08', level='proof', design_ref='DESIGN.md section 5 C08')
     P.meta += ['iteration = repeated next_position from min until end_position: next_position is proved to be the lexicographic (row-major) successor with carry inside [min,sup) and to yield end_position after the last position; by induction over the successor relation the range visits every p with min <= p < sup exactly once in storage order and size() (= product of extents, proved) is the number visited',
                'bijection: offset(min of whole grid) == 0 and offset(next(p)) == offset(p) + 1 (proved for every in-range p of the whole-grid range, modulo 2^32 with the content representable) give offset = index in iteration order, hence a bijection onto [0, content)']
-    P.not_decided += ['grid::interpolate, output, static_row helpers', 'resize/map/apply/fill on heap storage are bounded checks (B), see bounded_checks']
+    P.not_decided += ['grid::interpolate, output, static_row helpers', 'resize/map/apply/fill on heap storage are bounded checks (B) on a list of concrete shapes of at most 4 cells (symbolic extents did not close), see bounded_checks']
     for N in (1, 2, 3):
         make_scalar(P, N, tier)
     for N in (2, 3):
         make_refiter(P, N, tier)
+    make_heap(P, tier)
     return P
 
 
@@ -270,3 +271,65 @@ void h_offset_zero_%(tag)s(void){
         for l in ('dist', 'comm', 'zero', 'one'):
             u.lemma('h_arith_' + l, cls='P', backends=['cvc5', 'z3'], stagger=1, timeout=300, native=False, what='ring lemma %s for 32-bit machine multiplication, all operands' % l.upper())
     u.lemma('h_offset_zero_%s' % tag, cls='P', backends=['sat', 'cvc5'], native=False, what='offset(0) == 0')
+
+
+def make_heap(P, tier):
+    """grid<int,2> on std::vector storage: apply / map / resize / fill, cell by cell. Bounded stand-in: a list of CONCRETE shapes (symbolic
+    extents did not close: 900 s / 16 GB per job), cell contents symbolic."""
+    shim = """#include <cstddef>
+#include <fcppt/container/grid/object.hpp>
+#include <fcppt/container/grid/apply.hpp>
+#include <fcppt/container/grid/map.hpp>
+#include <fcppt/container/grid/resize.hpp>
+#include <fcppt/container/grid/fill.hpp>
+#include <fcppt/math/vector/at.hpp>
+namespace g = fcppt::container::grid;
+using grid2 = g::object<int, 2>;
+static grid2 mk(std::size_t w, std::size_t h, int c0, int c1, int c2, int c3){ grid2 r{grid2::dim{w, h}, 0}; int const cs[4] = {c0, c1, c2, c3}; unsigned k = 0; for (auto &x : r) { x = cs[k & 3]; ++k; } return r; }
+template <typename G> static void put(G const &r, std::size_t *ow, std::size_t *oh, unsigned *o){ *ow = r.size().w(); *oh = r.size().h(); unsigned k = 0; for (auto const &x : r) { if (k < 4) o[k] = static_cast<unsigned>(x); ++k; } }
+#define CA int a0, int a1, int a2, int a3
+#define CB int b0, int b1, int b2, int b3
+#define OUT std::size_t *ow, std::size_t *oh, unsigned *o
+#define APPLY(W1, H1, W2, H2) extern "C" void vf_grid_apply_##W1##H1##_##W2##H2(CA, CB, OUT){ put(g::apply([](int const a, int const b){ return static_cast<unsigned>(a) * 7U + static_cast<unsigned>(b) * 13U + 1U; }, mk(W1, H1, a0, a1, a2, a3), mk(W2, H2, b0, b1, b2, b3)), ow, oh, o); }
+#define MAP(W1, H1) extern "C" void vf_grid_map_##W1##H1(CA, OUT){ put(g::map(mk(W1, H1, a0, a1, a2, a3), [](int const a){ return static_cast<unsigned>(a) * 7U + 1U; }), ow, oh, o); }
+#define RESIZE(W1, H1, W2, H2) extern "C" void vf_grid_resize_##W1##H1##_##W2##H2(CA, OUT){ put(g::resize(mk(W1, H1, a0, a1, a2, a3), grid2::dim{W2, H2}, [](grid2::pos const p){ return static_cast<int>(1000U + p.x() + 10U * p.y()); }), ow, oh, o); }
+#define FILL(W1, H1) extern "C" void vf_grid_fill_##W1##H1(CA, OUT){ grid2 r{mk(W1, H1, a0, a1, a2, a3)}; g::fill(r, [](grid2::pos const p){ return static_cast<int>(100U + p.x() + 10U * p.y()); }); put(r, ow, oh, o); }
+"""
+    FR = '__CPROVER_is_fresh(ow, 8) && __CPROVER_is_fresh(oh, 8) && __CPROVER_is_fresh(o, 16)'
+    OW = '*ow, *oh, __CPROVER_object_whole(o)'
+    AA = ['a0', 'a1', 'a2', 'a3']; BB = ['b0', 'b1', 'b2', 'b3']
+    spec = ''
+    jobs = []
+    for (w1, h1, w2, h2) in ((2, 2, 2, 2), (1, 2, 2, 1), (2, 1, 2, 1), (2, 2, 2, 1), (4, 1, 2, 2), (0, 0, 0, 1)):
+        f = 'vf_grid_apply_%d%d_%d%d' % (w1, h1, w2, h2)
+        shim += 'APPLY(%d, %d, %d, %d)\n' % (w1, h1, w2, h2)
+        if (w1, h1) == (w2, h2):
+            ens = '*ow == %d && *oh == %d && ' % (w1, h1) + ' && '.join('o[%d] == (u32)(%s * 7u + %s * 13u + 1u)' % (i, AA[i], BB[i]) for i in range(w1 * h1))
+        else:
+            ens = '*ow == 0 && *oh == 0'
+        spec += 'function %s\n  __CPROVER_requires(%s)\n  __CPROVER_assigns(%s)\n  __CPROVER_ensures(%s)\n' % (f, FR, OW, ens)
+        jobs.append((f, 'apply on grids of shapes %dx%d and %dx%d: %s' % (w1, h1, w2, h2, 'the cell-wise result' if (w1, h1) == (w2, h2) else 'different sizes (also with the same number of cells) give the empty grid')))
+    for (w1, h1) in ((2, 2), (1, 2)):
+        f = 'vf_grid_map_%d%d' % (w1, h1)
+        shim += 'MAP(%d, %d)\n' % (w1, h1)
+        spec += 'function %s\n  __CPROVER_requires(%s)\n  __CPROVER_assigns(%s)\n  __CPROVER_ensures(*ow == %d && *oh == %d && %s)\n' % (f, FR, OW, w1, h1, ' && '.join('o[%d] == (u32)(%s * 7u + 1u)' % (i, AA[i]) for i in range(w1 * h1)))
+        jobs.append((f, 'map on a %dx%d grid: f on every cell, same shape' % (w1, h1)))
+    for (w1, h1, w2, h2) in ((2, 1, 2, 2), (2, 2, 1, 2), (1, 1, 2, 2), (2, 2, 2, 2)):
+        f = 'vf_grid_resize_%d%d_%d%d' % (w1, h1, w2, h2)
+        shim += 'RESIZE(%d, %d, %d, %d)\n' % (w1, h1, w2, h2)
+        cells = []
+        for y in range(h2):
+            for x in range(w2):
+                cells.append('o[%d] == %s' % (x + y * w2, ('(u32)' + AA[x + y * w1]) if (x < w1 and y < h1) else '%du' % (1000 + x + 10 * y)))
+        spec += 'function %s\n  __CPROVER_requires(%s)\n  __CPROVER_assigns(%s)\n  __CPROVER_ensures(*ow == %d && *oh == %d && %s)\n' % (f, FR, OW, w2, h2, ' && '.join(cells))
+        jobs.append((f, 'resize %dx%d -> %dx%d: cells that exist in the old grid keep their value at the same POSITION, new cells are init(position)' % (w1, h1, w2, h2)))
+    for (w1, h1) in ((2, 2),):
+        f = 'vf_grid_fill_%d%d' % (w1, h1)
+        shim += 'FILL(%d, %d)\n' % (w1, h1)
+        spec += 'function %s\n  __CPROVER_requires(%s)\n  __CPROVER_assigns(%s)\n  __CPROVER_ensures(*ow == %d && *oh == %d && %s)\n' % (f, FR, OW, w1, h1, ' && '.join('o[%d] == %du' % (x + y * w1, 100 + x + 10 * y) for y in range(h1) for x in range(w1)))
+        jobs.append((f, 'fill on a %dx%d grid: every cell is f(its position)' % (w1, h1)))
+    P.generated['heap.cpp'] = shim
+    P.generated['heap.spec'] = spec
+    u = P.unit('heap', 'heap.cpp', specs=['heap.spec'], inline=True)
+    for f, what in jobs:
+        u.contract(f, cls='B', unwind=6, bound='grid<int,2> on std::vector storage, the stated concrete shape(s) of at most 4 cells, cell contents symbolic', backends=['sat', 'cvc5'], timeout=600, what='grid ' + what)
